@@ -21,6 +21,9 @@ DecBasic(code) == 15 * I8(code)
 \* extended scope: _to_extended_offset_and_delta / _to_extended_delta_code ; toOffsetMinutes / toDeltaMinutes
 EncExtOffsetCode(offsetSeconds) == offsetSeconds \div 900
 EncExtDeltaCode(offsetSeconds, deltaSeconds) == (((offsetSeconds % 900) \div 60) * 16) + ((deltaSeconds \div 900) + 4)
+\* deltaCode is a (signed) int8_t field: the initializer the generator writes must *be* a value of that type (a C++11
+\* initializer list rejects 128..255), i.e. the byte pattern read as int8_t
+EncExtDeltaField(offsetSeconds, deltaSeconds) == I8(EncExtDeltaCode(offsetSeconds, deltaSeconds))
 DecExtDeltaMinutes(deltaCode) == (I8(U8(deltaCode) % 16) - 4) * 15
 DecExtOffsetMinutes(offsetCode, deltaCode) == (I8(offsetCode) * 15) + (U8(deltaCode) \div 16)
 \* years: to_tiny_year ; broker adds 2000 (max / min have reserved tiny values)
@@ -39,15 +42,15 @@ TimeOK == st[1] = "time" => LET e == EncTime(st[2], st[3]) IN
              /\ DecTimeMinutes(e[1], e[2]) * 60 = st[2] /\ DecSuffix(e[2]) = SuffixCode(st[3]) /\ e[1] \in 0..255 /\ e[2] \in 0..255
 \* the extended encoding keeps one-minute resolution for every offset and every DST shift
 ExtOffsetOK == st[1] = "offset" => \A d \in -4..11 :
-             LET oc == EncExtOffsetCode(st[2])  dc == EncExtDeltaCode(st[2], d * 900) IN
-             /\ DecExtOffsetMinutes(oc, dc) * 60 = st[2] /\ DecExtDeltaMinutes(dc) = d * 15 /\ oc \in -128..127
+             LET oc == EncExtOffsetCode(st[2])  dc == EncExtDeltaField(st[2], d * 900) IN
+             /\ DecExtOffsetMinutes(oc, dc) * 60 = st[2] /\ DecExtDeltaMinutes(dc) = d * 15 /\ oc \in -128..127 /\ dc \in -128..127
 \* the basic encoding is exact on multiples of 15 minutes
 BasicOffsetOK == (st[1] = "offset" /\ st[2] % 900 = 0) => DecBasic(EncBasicOffset(st[2])) * 60 = st[2]
 BasicDeltaOK == st[1] = "delta" => DecBasic(EncBasicOffset(st[2])) * 60 = st[2]
 YearOK == st[1] = "year" => (IF st[2] = MaxYear THEN DecYear(EncYear(st[2])) = 2126 ELSE IF st[2] = MinYear THEN DecYear(EncYear(st[2])) = 1873
                              ELSE DecYear(EncYear(st[2])) = st[2] /\ EncYear(st[2]) \in -128..127)
 Dump == PrintT(ToJson(CASE st[1] = "time" -> <<"time", st[2], st[3]>> \o EncTime(st[2], st[3])
-                        [] st[1] = "offset" -> <<"offset", st[2], EncBasicOffset(st[2]), EncExtOffsetCode(st[2]), EncExtDeltaCode(st[2], 0), EncExtDeltaCode(st[2], 3600)>>
+                        [] st[1] = "offset" -> <<"offset", st[2], EncBasicOffset(st[2]), EncExtOffsetCode(st[2]), EncExtDeltaField(st[2], 0), EncExtDeltaField(st[2], 3600)>>
                         [] st[1] = "delta" -> <<"delta", st[2], EncBasicOffset(st[2]), (st[2] \div 900) + 4>>
                         [] OTHER -> <<"year", st[2], EncYear(st[2])>>))
 =============================================================================
